@@ -64,7 +64,7 @@ Inductive op :=
 | Export (tops : list mid)          (* h.to_proto *)
 | Netlist (tops : list mid)         (* h.netlist *)
 | NewParent (ks : list mid)         (* a new Module instantiating existing ones; its id is the next free one *)
-| Add (m : mid).                    (* module.add(new signal) *)
+| Add (m : mid) (a : nat).          (* module.add(...) / setattr(module, ...): a = code of the attribute (kind, name, new or re-used) *)
 
 Section Machine.
   Variables C IO FIO : Type.        (* content of a module; bundle-level io; flattened io *)
@@ -76,7 +76,7 @@ Section Machine.
   Record view := View { v_mid : mid; v_bundle : IO; v_flat : option FIO }.
 
   Variable body : nat -> mid -> list view -> C -> C.
-  Variable addc : C -> C.           (* an accepted `module.add(...)` *)
+  Variable addc : nat -> C -> C.    (* an accepted `module.add(...)` of the attribute with code a *)
 
   Variable caches : list nat.       (* cache index of every pass entry, in list order *)
   Variables bf mk : nat.            (* the entry that flattens bundles, the entry that marks modules *)
@@ -168,10 +168,10 @@ Section Machine.
         then (State (s_design st ++ [ks]) (s_done st) (s_content st) (s_snap st) (s_marked st) (s_stage st)
                     (s_log st) (s_err st), RNew n)
         else (st, RBad)
-    | Add m =>
-        if s_marked st m then (st, RRefused)
+    | Add m a =>
+        if s_marked st m then (st, RRefused)       (* refused: NOTHING changes, whatever the attribute *)
         else if m <? n
-        then (State (s_design st) (s_done st) (upd (s_content st) m (addc (s_content st m))) (s_snap st)
+        then (State (s_design st) (s_done st) (upd (s_content st) m (addc a (s_content st m))) (s_snap st)
                     (s_marked st) (s_stage st) (s_log st) (s_err st), RAccepted)
         else (st, RBad)
     end.
